@@ -217,3 +217,11 @@ add('FSRC',
     Rule('X-FSRC', '$b:p.chunks_exact($ss:e).map(|d| T::parse(d)).collect::<Result<Vec<_>>>()', 'parse_chunks::<T>(&$b, $ss)'),
     Rule('X-FSRC', '$b:p.extend(&$s:i[..$n:e]);', 'extend_prefix(&mut $b, &$s, $n);', stmt_start=True),
     Rule('X-FSRC', '$b:p.drain(0..($k:e));', 'drain_prefix(&mut $b, $k);', stmt_start=True))
+
+# X-TCP (unit tcp): socket / parse idioms of tcp_source.rs
+add('TCP',
+    Rule('X-TCP', 'std::net::TcpStream', 'FileReader'),
+    Rule('X-TCP', 'T::parse(&$b:p[$a:e..$e:e])', 'parse_range::<T>(&$b, $a, $e)'),
+    Rule('X-TCP', 'T::parse(&$b:p)', 'parse_vec::<T>(&$b)'),
+    Rule('X-TCP', '$b:p.extend(&$s:i[$a:e..$e:e]);', 'extend_range(&mut $b, &$s, $a, $e);', stmt_start=True),
+    Rule('X-TCP', 'for $p:i in ($a:e..($b:e)).step_by($s:e) $body:b', '{ let mut $p = $a; while $p < $b { $body $p += $s; } }'))
